@@ -211,7 +211,7 @@ def check_tables(fx, R):
         want = Rfull.diff(ang)
         res = sp.simplify(v - want)
         if res != sp.zeros(3, 3):
-            R.fingerprint('G1', 'SmartRotation3D::dRdAngleAround%sAxis:value' % ax, alg.numeric_fingerprint(v))
+            R.fingerprint('G1', 'SmartRotation3D::dRdAngleAround%sAxis:value' % ax, alg.numeric_fingerprint(v) + ' vs ' + alg.numeric_fingerprint(want))       # what is reported AND what it is compared with
         R.check(res == sp.zeros(3, 3), 'G1', 'SmartRotation3D::dRdAngleAround%sAxis:value' % ax,
                 'dR/d%s as reported differs from the derivative of the reported R by %s' % (ax.lower(), res.tolist()), 'equals d R / d angle', loc, 'E-ALG')
         # product structure over the library's own elementary tables, judged on what the accessor RETURNS on first access after init()
